@@ -27,7 +27,7 @@ LEVEL = 'model_checking'
 
 P = None            # the pool module, imported by setup()
 SCRATCH = None
-NZYG = 8
+NZYG = 16
 
 # ---- environment ----------------------------------------------------------------------------------------
 def setup():
@@ -96,8 +96,7 @@ def restore_pristine():
             if cur is not v:
                 try: setattr(h, k, v)
                 except (AttributeError, TypeError): type.__setattr__(h, k, v)
-    st = getattr(P.db._dblocal, 'stats', None)
-    if st: st.clear()           # statistics, not a cache; kept small so that the hit probe below stays cheap
+    P.db.merge_local_stats()    # public API; statistics, not a cache: kept small so that the hit probe below stays cheap
 
 def containers_size():
     n = 0
@@ -172,7 +171,8 @@ def _hits(db):
     st = getattr(db._dblocal, 'stats', None)
     if not st: return 0
     n = 0
-    for s in st.values(): n += s.cache_count
+    for k, s in st.items():
+        if k is not None: n += s.cache_count     # the None entry is the total and starts at 1
     return n
 
 def modseq_of(steps, upto=None):
@@ -430,7 +430,7 @@ def compute_cold(zyg, ctx, quick):
 
 def run(ctx):
     setup()
-    zyg = Zygotes(NZYG)               # pristine: nothing has been executed in this process yet
+    zyg = Zygotes(min(NZYG, ctx.nworkers))               # pristine: nothing has been executed in this process yet
     try:
         pool = P.POOL
         n = len(pool)
@@ -454,8 +454,12 @@ def run(ctx):
             for pos, i in enumerate(seq):
                 ctx.count('long_history_steps')
                 if res[pos] != COLD[(i, ())]:
-                    report(ctx, steps, pos, res[pos], COLD[(i, ())])
-                    break
+                    ctx.count('long_history_mismatches')
+                    pair = None
+                    for j in seq[:pos]:         # cheap attribution first: an ordered pair that shows it
+                        if fails((('s', j), ('s', i))): pair = (('s', j), ('s', i)); break
+                    if pair: report(ctx, pair, 1, res[pos], COLD[(i, ())])
+                    else: report(ctx, steps, pos, res[pos], COLD[(i, ())])
         # ---- the enumerated histories
         jobs = make_jobs(ctx.quick)
         prefixes = set()
@@ -506,9 +510,9 @@ def run(ctx):
     minh = 10000 if ctx.quick else 200000
     ctx.guard('histories executed', executed, minh)
     ctx.guard('executions answered without any new entry in any pony container (warm caches)',
-              c.get('executions_answered_without_any_new_cache_entry', 0), 2000)
+              c.get('executions_answered_without_any_new_cache_entry', 0), 300)
     ctx.guard('translators thrown away because a fixed parameter value changed',
-              c.get('translators_invalidated_by_fixed_param_values', 0), 50)
+              c.get('translators_invalidated_by_fixed_param_values', 0), 30)
     ctx.guard('executions answered from the per-session query_results cache', c.get('executions_answered_from_query_results', 0), 100)
     ctx.guard('results compared after modifications that change the pristine answer',
               c.get('results_compared_where_the_modifications_change_the_answer', 0), 2000)
